@@ -33,6 +33,8 @@ type Obligation struct {
 }
 
 type Engine struct {
+	mergedContracts map[string]*Contract // sameas + own clauses, by key
+	trustedUsed     map[string]bool      // pkgpath:key of in-repository trusted functions whose contract this run applied
 	fset       *token.FileSet
 	pkgs       map[string]*packages.Package
 	shapes     map[string]*Shape
